@@ -1005,6 +1005,88 @@ def slice_length_chains(prog, scope):
     return out, covered
 
 
+def container_geometry(prog, res):
+    """C14.G / C18: the table size an HLL LIST or SET image announces is handed to the container readers only when the in-memory
+    sketch can reach it: a coupon list never grows beyond its initial table (the size `List::default()` builds) and a coupon set is
+    promoted when its table has reached lg_k - 3 (the chain C18.K checks by value).  An accepted image beyond that is an Ok value that
+    later panics (`HashSet full`) or is never promoted (the set doubles with the stream).  By value: the conditions on every path to
+    the call of the container reader, evaluated for every lg_k 4..=21 and every lg_arr byte 0..=255; conditions on anything else are
+    left open (a path is feasible unless one of its conditions is definitely false)."""
+    from .common import Sym, show
+    hs = "hll::sketch::HllSketch"
+    rd = C.pub_fn(prog, hs, "deserialize")
+    if rd is None:
+        return 0
+    s = Sym(prog, rd)
+    lgk_key = None
+    for (ff, b, kind, place, rv, span, adt, fld) in sym.field_stores(prog, adt=hs, field="lg_config_k", fns=[rd]):
+        try:
+            e = s.at(b, "t").rvalue(rv)
+        except Exception:
+            continue
+        while e[0] == "cast":
+            e = e[1]
+        lgk_key = show(e)
+    # the list's own table size
+    list_lg = None
+    ld = C.fn_one(prog, "hll::list::List", "default")
+    if ld is not None:
+        for b, site in ld.calls():
+            if (site.get("callee") or "").endswith("List::new") and site["args"]:
+                try:
+                    list_lg = formula.evaluate(Sym(prog, ld).at(b, "t").operand(site["args"][0]), {"@prog": prog})
+                except formula.Uneval:
+                    pass
+    n = 0
+    for b, site in rd.calls():
+        cal = site.get("callee") or ""
+        which = "list" if cal == "hll::list::List::deserialize" else ("set" if cal == "hll::hash_set::HashSet::deserialize" else None)
+        if which is None or len(site["args"]) < 2:
+            continue
+        n += 1
+        a = s.at(b, "t").operand(site["args"][1])
+        while a[0] == "cast":
+            a = a[1]
+        arr_key = show(a)
+        paths = s.path_conditions(b)
+        if paths is None or lgk_key is None or (which == "list" and not isinstance(list_lg, int)) or not (a[0] == "call" and "@" in a[1]):
+            res.tri(None, "C14.G", "C14.G|%s" % which, "size argument of the %s reader / lg_k not recognised" % which)
+            continue
+        verdict, wit = True, ""
+        for lgk in range(4, 22):
+            bound = list_lg if which == "list" else max(lgk - 3, 0)
+            for arr in range(0, 256):
+                if arr <= bound:
+                    continue
+                env = {"@prog": prog, lgk_key: lgk, arr_key: arr}
+                feasible = False
+                for pth in paths:
+                    dead = False
+                    for c, tv in pth:
+                        try:
+                            v = formula.evaluate(c, env)
+                        except (formula.Uneval, TypeError, IndexError, ZeroDivisionError):
+                            continue
+                        if isinstance(v, tuple):
+                            continue
+                        if (tv[0] == "eq" and v != tv[1]) or (tv[0] == "ne" and v in tv[1]):
+                            dead = True
+                            break
+                    if not dead:
+                        feasible = True
+                        break
+                if feasible:
+                    verdict, wit = False, "lg_k %d, lg_arr %d (the sketch itself never goes beyond %d)" % (lgk, arr, bound)
+                    break
+            if verdict is False:
+                break
+        res.tri(verdict, "C14.G", "C14.G|%s" % which, "HllSketch::deserialize hands the %s reader a table size no sketch reaches: %s -- the value is Ok and then %s" % (
+            which, wit, "promotion overflows the fixed first set (`HashSet full`)" if which == "list" else "is never promoted: the set doubles with the stream"), rd.id, site.get("span"),
+            sample={"rule": "C14.G", "container": which, "lg_k": lgk_key, "lg_arr": arr_key})
+    res.rule("C14.G", n, 2, "container readers called from HllSketch::deserialize")
+    return n
+
+
 def run(prog, ctx):
     res = Result("C14")
     ents, missing = entries(prog)
@@ -1024,6 +1106,7 @@ def run(prog, ctx):
     aux_slot_agreement(prog, res)
     raw_buffer_uses(prog, res, ents)
     unvalidated_scalars(prog, res, ents)
+    container_geometry(prog, res)
     chains, chain_cover = slice_length_chains(prog, scope)
     n_chain = [0, 0, 0]
     for fid, (v, why) in sorted(chains.items()):
